@@ -141,6 +141,15 @@ def families(prop, tier):
         fams.append(dict(name='pools-dict', mode='dfs', depth=8 if q else 10, budget=600 if q else 40000,
                          cfg=dict(backend='dict', gate_store=False, nmsgs=3, nrcpt=1, backoff=[0, 2, None], store_pool=1, relay_pool=1,
                                   outcomes=['ok', 'T1'])))
+    if prop in ('C01', 'C03'):
+        # the same id dispatched twice while its first fetch is still in flight, on an index-log backend
+        base = ['enq', 'write', 'relay:map:ott', 'increment_attempts', 'set_timestamp', 'set_recipients_delivered', 'announce', 'get', 'get',
+                'relay:map:ot', 'relay:map:ot']
+        plans = [base, base[:6] + ['get', 'announce', 'get', 'relay:map:ot', 'relay:map:ot'], base[:7] + ['get', 'relay:map:ot', 'get', 'relay:map:ot']]
+        for be in ('disk', 'redis'):
+            fams.append(dict(name='dupdispatch-%s' % be, mode='plans', plans=plans,
+                             cfg=dict(backend=be, gate_store=True, announce=True, nmsgs=1, nrcpt=3, backoff=[0, 0, 0, None],
+                                      outcomes=['ok', 'T1', 'map:ott', 'map:ot', 'map:o', 'map:t'])))
     if prop in ('C13', 'C01'):
         for sp in (1, 2):
             fams.append(dict(name='bouncepool-dict', mode='dfs', depth=5, budget=400 if q else 20000,
